@@ -850,11 +850,43 @@ func (w *Walker) write(loc string, kind int, idx, val *Term, st *State, at ast.N
 // applyKill transforms the state for a write of the given kind to loc.
 func applyKill(st *State, loc string, kind int, idx *Term) {
 	st.Killed[loc] |= kind
+	if idx == nil && kind == KillNNOwn {
+		idx = mkTerm(KField, "ctx.MyIndex")
+	}
+	if idx == nil && kind == KillNNPrimary {
+		idx = mkTerm(KField, "ctx.PrimaryIndex")
+	}
+	// quorum lower bounds !(count{T|phi} < K) survive a non-nil store at idx when the replaced entry did not satisfy phi
+	keepCount := map[string]bool{}
+	if kind&(KillAny|KillNil) == 0 && idx != nil {
+		for k, v := range st.F.m {
+			at := st.F.atoms[k]
+			if v || at.Op != "lt" || at.A.K != KCount || at.A.Table != loc || len(at.A.Phi) == 0 {
+				continue
+			}
+			old := mkTerm(KIndex, "", mkTerm(KField, loc), idx)
+			sub := map[string]*Term{at.A.ElemS: old}
+			for _, pl := range at.A.Phi {
+				inst := substAtomByS(pl.A, sub)
+				if val, ok := st.F.value(inst); ok && val != pl.Pos {
+					keepCount[k] = true
+					break
+				}
+			}
+		}
+	}
 	isSlot := func(a *Atom) bool {
 		return a.Op == "nn" && a.A.K == KIndex && a.A.Args[0].K == KField && a.A.Args[0].Name == loc && !a.A.Args[1].readsLoc(loc)
 	}
 	st.F.dropIf(func(a *Atom, val bool) bool {
 		if !a.readsLoc(loc) {
+			return false
+		}
+		if keepCount[a.S] {
+			return false
+		}
+		// upper bounds (count < K) survive nil-stores
+		if kind == KillNil && val && a.Op == "lt" && a.A.K == KCount && a.A.Table == loc {
 			return false
 		}
 		if kind&KillAny != 0 || !isSlot(a) {
@@ -887,12 +919,57 @@ func applyKill(st *State, loc string, kind int, idx *Term) {
 	// env values reading the location become opaque
 	for v, t := range st.Env {
 		if t.readsLoc(loc) {
-			if kind&KillAny == 0 && t.K == KCount {
-				// counts over a table are invalidated by any store
+			if t.K == KCount && t.Table == loc {
+				keep := false
+				for k := range keepCount {
+					if strings.HasPrefix(k, t.S+"<") {
+						keep = true
+					}
+				}
+				if keep {
+					continue
+				}
 			}
 			st.Env[v] = fresh("k")
 		}
 	}
+}
+
+// substAtomByS substitutes terms by canonical string (used to instantiate loop-element conditions).
+func substAtomByS(a *Atom, sub map[string]*Term) *Atom {
+	na := substTermByS(a.A, sub)
+	var nb *Term
+	if a.B != nil {
+		nb = substTermByS(a.B, sub)
+	}
+	return mkAtom(a.Op, na, nb)
+}
+
+func substTermByS(t *Term, sub map[string]*Term) *Term {
+	if t == nil {
+		return nil
+	}
+	if r, ok := sub[t.S]; ok {
+		return r
+	}
+	if len(t.Args) == 0 {
+		return t
+	}
+	nargs := make([]*Term, len(t.Args))
+	changed := false
+	for i, x := range t.Args {
+		nargs[i] = substTermByS(x, sub)
+		if nargs[i] != x {
+			changed = true
+		}
+	}
+	if !changed {
+		return t
+	}
+	nt := mkTerm(t.K, t.Name, nargs...)
+	nt.Unsigned = t.Unsigned
+	nt.NonNil = t.NonNil
+	return nt
 }
 
 // ---- conditions ----
